@@ -7,40 +7,25 @@ import (
 	"fmt"
 	"strings"
 
-	"k8s.io/apiserver/pkg/authentication/user"
-	"k8s.io/apiserver/pkg/authorization/authorizer"
 
 	proxyv1alpha1 "github.com/kubewharf/kubegateway/pkg/apis/proxy/v1alpha1"
 	"github.com/kubewharf/kubegateway/pkg/clusters"
 
 	"verifh/ev"
 	"verifh/kit"
+	"verifh/rulekit"
 )
 
 // ---------------------------------------------------------------- requests
 
-type req struct {
-	Verb, Group, Resource, Sub, Name, Path, User string
-	Groups                                         []string
-	IsRes                                          bool
-}
+type req = rulekit.Req
+type field = rulekit.Field
 
-func (r req) attrs() authorizer.Attributes {
-	return authorizer.AttributesRecord{
-		User: &user.DefaultInfo{Name: r.User, Groups: r.Groups}, Verb: r.Verb, APIGroup: r.Group, Resource: r.Resource,
-		Subresource: r.Sub, Name: r.Name, ResourceRequest: r.IsRes, Path: r.Path,
-	}
-}
-
-func (r req) String() string {
-	if r.IsRes {
-		return fmt.Sprintf("%s group=%q res=%s sub=%q name=%q user=%s groups=%v", r.Verb, r.Group, r.Resource, r.Sub, r.Name, r.User, r.Groups)
-	}
-	return fmt.Sprintf("%s path=%s user=%s groups=%v", r.Verb, r.Path, r.User, r.Groups)
-}
-
-var baseRes = req{Verb: "get", Group: "", Resource: "pods", Name: "a", User: "alice", Groups: []string{"g1"}, IsRes: true}
-var baseNon = req{Verb: "get", Path: "/healthz", User: "alice", Groups: []string{"g1"}}
+var (
+	fields, lists, wild, shape, saShape, merge = rulekit.Fields, rulekit.Lists, rulekit.Wild, rulekit.Shape, rulekit.SaShape, rulekit.Merge
+	saSets                                     = rulekit.SaSets
+	reqVerbs, reqUsers                         = rulekit.ReqVerbs, rulekit.ReqUsers
+)
 
 // ---------------------------------------------------------------- reference
 
@@ -208,105 +193,7 @@ func culprit(r req, rule *proxyv1alpha1.DispatchPolicyRule) string {
 
 // ---------------------------------------------------------------- alphabets
 
-func lists(tokens []string, maxLen int) [][]string {
-	out := [][]string{{}}
-	frontier := [][]string{{}}
-	for l := 1; l <= maxLen; l++ {
-		var next [][]string
-		for _, p := range frontier {
-			for _, t := range tokens {
-				n := append(append([]string{}, p...), t)
-				next = append(next, n)
-			}
-		}
-		out = append(out, next...)
-		frontier = next
-	}
-	return out
-}
-
-var (
-	tokVerbs  = []string{"*", "get", "list", "-get", "-list"}
-	tokGroups = []string{"*", "", "apps", "-", "-apps"}
-	tokRes    = []string{"*", "pods", "pods/status", "*/status", "deployments", "-pods", "-deployments", "-pods/status", "-*/status"}
-	tokNames  = []string{"*", "a", "-a", "-b"}
-	tokUsers  = []string{"*", "alice", "system:*", "-alice", "-system:*"}
-	tokUG     = []string{"*", "g1", "g2", "-g1", "-g2"}
-	tokURL    = []string{"*", "/healthz", "/healthz/*", "/api*", "-/healthz"}
-	saSets    = [][]proxyv1alpha1.ServiceAccountRef{nil, {{Namespace: "ns", Name: "sa"}}, {{Namespace: "", Name: "sa"}}}
-
-	reqVerbs  = []string{"get", "list", "watch"}
-	reqGroups = []string{"", "apps"}
-	reqRes    = []string{"pods", "deployments", "nodes"}
-	reqSubs   = []string{"", "status", "log"}
-	reqNames  = []string{"", "a", "b"}
-	reqPaths  = []string{"/healthz", "/healthz/x", "/api", "/version", "/apis"}
-	reqUsers  = []string{"alice", "bob", "system:node", "system:serviceaccount:ns:sa"}
-	reqUG     = [][]string{{}, {"g1"}, {"g2"}, {"g1", "g2"}, {"g3"}}
-)
-
-type field struct {
-	name string
-	// set installs a list into a rule
-	set func(r *proxyv1alpha1.DispatchPolicyRule, l []string)
-	// requests varying the attribute(s) the field looks at
-	reqs   func() []req
-	tokens []string
-}
-
-func wild() proxyv1alpha1.DispatchPolicyRule {
-	return proxyv1alpha1.DispatchPolicyRule{Verbs: []string{"*"}, APIGroups: []string{"*"}, Resources: []string{"*"}, NonResourceURLs: []string{"*"}}
-}
-
-func fields() []field {
-	vary := func(f func(r *req, i int), n int, bases ...req) func() []req {
-		return func() []req {
-			var out []req
-			for _, b := range bases {
-				for i := 0; i < n; i++ {
-					r := b
-					f(&r, i)
-					out = append(out, r)
-				}
-			}
-			return out
-		}
-	}
-	return []field{
-		{"verbs", func(r *proxyv1alpha1.DispatchPolicyRule, l []string) { r.Verbs = l }, vary(func(r *req, i int) { r.Verb = reqVerbs[i] }, len(reqVerbs), baseRes, baseNon), tokVerbs},
-		{"apiGroups", func(r *proxyv1alpha1.DispatchPolicyRule, l []string) { r.APIGroups = l }, vary(func(r *req, i int) { r.Group = reqGroups[i] }, len(reqGroups), baseRes), tokGroups},
-		{"resources", func(r *proxyv1alpha1.DispatchPolicyRule, l []string) { r.Resources = l }, vary(func(r *req, i int) { r.Resource = reqRes[i/3]; r.Sub = reqSubs[i%3] }, 9, baseRes), tokRes},
-		{"resourceNames", func(r *proxyv1alpha1.DispatchPolicyRule, l []string) { r.ResourceNames = l }, vary(func(r *req, i int) { r.Name = reqNames[i] }, len(reqNames), baseRes), tokNames},
-		{"users", func(r *proxyv1alpha1.DispatchPolicyRule, l []string) { r.Users = l }, vary(func(r *req, i int) { r.User = reqUsers[i] }, len(reqUsers), baseRes, baseNon), tokUsers},
-		{"userGroups", func(r *proxyv1alpha1.DispatchPolicyRule, l []string) { r.UserGroups = l }, vary(func(r *req, i int) { r.Groups = reqUG[i] }, len(reqUG), baseRes, baseNon), tokUG},
-		{"nonResourceURLs", func(r *proxyv1alpha1.DispatchPolicyRule, l []string) { r.NonResourceURLs = l }, vary(func(r *req, i int) { r.Path = reqPaths[i] }, len(reqPaths), baseNon), tokURL},
-	}
-}
-
 // classify gives a violation a stable key: the field and the shape of its list.
-func shape(l []string) string {
-	var s []string
-	for _, e := range l {
-		switch {
-		case e == "*":
-			s = append(s, "*")
-		case strings.HasPrefix(e, "-") && strings.HasSuffix(e, "*"):
-			s = append(s, "-glob")
-		case strings.HasPrefix(e, "-*/"):
-			s = append(s, "-*/sub")
-		case strings.HasPrefix(e, "-"):
-			s = append(s, "-x")
-		case strings.HasSuffix(e, "*"):
-			s = append(s, "glob")
-		case strings.HasPrefix(e, "*/"):
-			s = append(s, "*/sub")
-		default:
-			s = append(s, "x")
-		}
-	}
-	return "[" + strings.Join(s, ",") + "]"
-}
-
 func main() {
 	c := ev.Start("C01", "exploration")
 	L := c.Pick(3, 4)
@@ -320,18 +207,18 @@ func main() {
 	// (i) every list of one field x every request value, other fields wildcarded
 	for _, f := range fields() {
 		f := f
-		tasks = append(tasks, ev.Task{Name: "field-" + f.name, Run: func() {
-			for _, l := range lists(f.tokens, L) {
+		tasks = append(tasks, ev.Task{Name: "field-" + f.Name, Run: func() {
+			for _, l := range lists(f.Tokens, L) {
 				sas := saSets[:1]
-				if f.name == "users" {
+				if f.Name == "users" {
 					sas = saSets
 				}
 				for _, sa := range sas {
 					rule := wild()
-					f.set(&rule, l)
+					f.Set(&rule, l)
 					rule.ServiceAccounts = sa
-					for _, r := range f.reqs() {
-						compareRule(c, "field:"+f.name, r, &rule, f.name+shape(l)+saShape(sa))
+					for _, r := range f.Reqs() {
+						compareRule(c, "field:"+f.Name, r, &rule, f.Name+shape(l)+saShape(sa))
 					}
 				}
 			}
@@ -342,20 +229,20 @@ func main() {
 	for i := 0; i < len(fs); i++ {
 		for j := i + 1; j < len(fs); j++ {
 			fi, fj := fs[i], fs[j]
-			tasks = append(tasks, ev.Task{Name: "pair-" + fi.name + "-" + fj.name, Run: func() {
+			tasks = append(tasks, ev.Task{Name: "pair-" + fi.Name + "-" + fj.Name, Run: func() {
 				Lp := L - 1
-				for _, li := range lists(fi.tokens, Lp) {
-					for _, lj := range lists(fj.tokens, Lp) {
+				for _, li := range lists(fi.Tokens, Lp) {
+					for _, lj := range lists(fj.Tokens, Lp) {
 						rule := wild()
-						fi.set(&rule, li)
-						fj.set(&rule, lj)
-						for _, ri := range fi.reqs() {
-							for _, rj := range fj.reqs() {
+						fi.Set(&rule, li)
+						fj.Set(&rule, lj)
+						for _, ri := range fi.Reqs() {
+							for _, rj := range fj.Reqs() {
 								if ri.IsRes != rj.IsRes {
 									continue
 								}
-								r := merge(ri, rj, fj.name)
-								compareRule(c, "pair", r, &rule, "pair:"+fi.name+shape(li)+"+"+fj.name+shape(lj))
+								r := merge(ri, rj, fj.Name)
+								compareRule(c, "pair", r, &rule, "pair:"+fi.Name+shape(li)+"+"+fj.Name+shape(lj))
 							}
 						}
 					}
@@ -375,46 +262,15 @@ func main() {
 	})
 }
 
-func saShape(sa []proxyv1alpha1.ServiceAccountRef) string {
-	if len(sa) == 0 {
-		return ""
-	}
-	if sa[0].Namespace == "" {
-		return "+sa(incomplete)"
-	}
-	return "+sa"
-}
-
-func merge(a, b req, bField string) req {
-	r := a
-	switch bField {
-	case "verbs":
-		r.Verb = b.Verb
-	case "apiGroups":
-		r.Group = b.Group
-	case "resources":
-		r.Resource, r.Sub = b.Resource, b.Sub
-	case "resourceNames":
-		r.Name = b.Name
-	case "users":
-		r.User = b.User
-	case "userGroups":
-		r.Groups = b.Groups
-	case "nonResourceURLs":
-		r.Path = b.Path
-	}
-	return r
-}
-
 func compareRule(c *ev.Check, kind string, r req, rule *proxyv1alpha1.DispatchPolicyRule, key string) {
 	c.Add("rule_evaluations", 1)
 	var got bool
-	if p := kit.Try(func() { got = clusters.RuleMatches(r.attrs(), rule) }); p != "" {
+	if p := kit.Try(func() { got = clusters.RuleMatches(r.Attrs(), rule) }); p != "" {
 		c.Violation("panic:"+key, "RuleMatches panicked: "+p, map[string]interface{}{"rule": rule, "request": r})
 		return
 	}
 	// determinism: same inputs, same answer
-	if again := clusters.RuleMatches(r.attrs(), rule); again != got {
+	if again := clusters.RuleMatches(r.Attrs(), rule); again != got {
 		c.Violation("nondeterministic:"+key, "RuleMatches gave two answers for the same input", map[string]interface{}{"rule": rule, "request": r})
 	}
 	want, defined := refRule(r, rule)
@@ -488,7 +344,7 @@ func policyLists(c *ev.Check, P int) {
 				}
 			}
 			got := -1
-			if p := clusters.MatchPolicies(r.attrs(), pols); p != nil {
+			if p := clusters.MatchPolicies(r.Attrs(), pols); p != nil {
 				for pos := range pols {
 					if p == &pols[pos] {
 						got = pos
@@ -500,7 +356,7 @@ func policyLists(c *ev.Check, P int) {
 				c.Violation(key, fmt.Sprintf("policies %v request {%s}: MatchPolicies chose #%d, first matching is #%d", idx, r, got, want), map[string]interface{}{"policies": idx, "request": r})
 			}
 			check := func(when string) {
-				picker, err := ci.MatchAttributes(r.attrs())
+				picker, err := ci.MatchAttributes(r.Attrs())
 				if want < 0 {
 					if err != clusters.ErrNoRouterRuleMatches || picker != nil {
 						c.Violation("nomatch-not-rejected", fmt.Sprintf("policies %v request {%s} (%s): no policy matches but MatchAttributes returned picker=%v err=%v", idx, r, when, picker != nil, err), nil)
